@@ -503,11 +503,18 @@ type Contract struct {
 	Line     int
 	Asserts  []Clause
 	Assumes  []Clause // stated mathematical facts, assumed when verifying the body; listed in the evidence
+	AtCalls  []AtCall // ghost assertions checked in the state just before a call to a named callee
+	Opaque   []string // spec functions treated as uninterpreted in this function's conditions
 	Footprint []*Node // objects whose fields (of the maps in Modifies) may change; all others keep theirs
 	Abstract []*Node // nonlinear terms replaced by fresh constants in a first proof attempt
 	Thin     bool // generated by the safety sweep
 	NoVerify bool // contract is only used at call sites (body outside subset); listed as assumption
 	Lets     []LetSpec
+}
+
+type AtCall struct {
+	Callee string // short name suffix of the callee, e.g. "Calculate" or "(*bill.Invoice).Calculate"
+	Clause Clause
 }
 
 type LetSpec struct {
@@ -522,6 +529,7 @@ type SpecFunc struct {
 	RType   string
 	Body    *Node
 	Macro   bool // heap-reading predicate: expanded at use site
+	Rec     bool // recursive heap-reading function: SMT define-fun-rec with the heap maps it reads as extra parameters
 	PkgPath string
 	Raw     string // raw SMT body (spec-smt)
 }
@@ -743,6 +751,7 @@ func (cs *ContractSet) LoadContractFile(path, pkgPath string) error {
 		return err
 	}
 	var cur *Contract
+	var fileOpaque []string
 	extern := !strings.HasSuffix(path, ".go")
 	for i, l := range lines {
 		fail := func(e error) error { return fmt.Errorf("%s:%d: %v", path, nums[i], e) }
@@ -753,9 +762,12 @@ func (cs *ContractSet) LoadContractFile(path, pkgPath string) error {
 		case "package":
 			pkgPath = rest
 			cur = nil
-		case "spec", "pred":
+		case "spec", "pred", "rec":
 			cur = nil
 			sf, err := parseSpecFunc(rest, kw == "pred")
+			if err == nil && kw == "rec" {
+				sf.Rec = true
+			}
 			if err != nil {
 				return fail(err)
 			}
@@ -801,6 +813,7 @@ func (cs *ContractSet) LoadContractFile(path, pkgPath string) error {
 				return fail(fmt.Errorf("duplicate contract for %s", c.Key))
 			}
 			cs.Funcs[c.Key] = c
+			c.Opaque = append(c.Opaque, fileOpaque...)
 			cur = c
 		case "assume":
 			if cur == nil {
@@ -852,6 +865,28 @@ func (cs *ContractSet) LoadContractFile(path, pkgPath string) error {
 					cur.Modifies = append(cur.Modifies, m)
 				}
 			}
+		case "at-call":
+			// at-call <callee> assert [label] <expr>
+			if cur == nil {
+				return fail(fmt.Errorf("at-call outside func"))
+			}
+			k := strings.Index(rest, " assert ")
+			if k < 0 {
+				return fail(fmt.Errorf("at-call needs: at-call <callee> assert <expr>"))
+			}
+			cl, err := parseClause(rest[k+8:])
+			if err != nil {
+				return fail(err)
+			}
+			cur.AtCalls = append(cur.AtCalls, AtCall{Callee: strings.TrimSpace(rest[:k]), Clause: cl})
+		case "opaque-default":
+			// applies to every function contract that follows in this file
+			fileOpaque = append(fileOpaque, strings.Fields(strings.ReplaceAll(rest, ",", " "))...)
+		case "opaque":
+			if cur == nil {
+				return fail(fmt.Errorf("opaque outside func"))
+			}
+			cur.Opaque = append(cur.Opaque, strings.Fields(strings.ReplaceAll(rest, ",", " "))...)
 		case "footprint":
 			if cur == nil {
 				return fail(fmt.Errorf("footprint outside func"))
